@@ -89,6 +89,10 @@ def gen_v2_config(rng: random.Random, states: list, n: int, T: int, profile: dic
         "sampling_rate": G.pick(rng, [1.0, 1.0, 0.5]),
         "noise": {},
     }
+    if spec["default_evaluation_times"] == "Full" and T * spec["sampling_rate"] > 1200:
+        # bounded runs: 'Full' on a long sequence means thousands of evaluation
+        # times, each recomputed by the oracle (one such run took 40 s)
+        spec["default_evaluation_times"] = [0.0, 0.5, 1.0]
     r = rng.random()
     if r < 0.45:
         pass
